@@ -380,13 +380,21 @@ def direct_case(case):
                     left = ap.AnimalPopulation.calculate_change_in_population(a, _Country(month), additive, remaining)
             except AssertionError:
                 # (remaining / h) * h can exceed remaining by one ulp in floats and trip the code's own assert; a state that
-                # passes with the hours nudged up by 1e-9 relative is counted as that rounding artefact, not as a failure
-                a.current_population = cur
-                remaining = remaining * (1 + 1e-9)
-                rec["remaining"] = remaining
+                # passes for one of the next 12 floats above the remaining hours is counted as that rounding artefact
                 rec["float_assert"] = True
-                with quiet():
-                    left = ap.AnimalPopulation.calculate_change_in_population(a, _Country(month), additive, remaining)
+                left = None
+                for _k in range(12):
+                    a.current_population = cur
+                    remaining = math.nextafter(remaining, math.inf)
+                    try:
+                        with quiet():
+                            left = ap.AnimalPopulation.calculate_change_in_population(a, _Country(month), additive, remaining)
+                        break
+                    except AssertionError:
+                        continue
+                if left is None:
+                    raise AssertionError("allocated negative hours for 12 neighbouring values of the remaining hours")
+                rec["remaining"] = remaining
             rec["obs"] = [fl(a.slaughter[-1]), fl(a.current_population), fl(a.pregnant_animals_total[-1]),
                           fl(a.pregnant_animals_birthing_this_month[-1]), fl(a.other_death_causes_other_than_starving[-1]),
                           fl(a.slaughtered_pregnant_animals[-1]), fl(left)]
